@@ -383,7 +383,11 @@ func (e *Engine) site(st *State) string {
 			}
 		}
 	}
-	return fmt.Sprintf("%s `%s` (%s:%d)", f.fn.String(), srcLine(ps.Filename, ps.Line), filepath.Base(ps.Filename), ps.Line)
+	inner := ""
+	if pick != len(st.frames)-1 && os.Getenv("SYMGO_INNER") != "" {
+		inner = " <in " + st.frames[len(st.frames)-1].fn.String() + ">"
+	}
+	return fmt.Sprintf("%s `%s`%s (%s:%d)", f.fn.String(), srcLine(ps.Filename, ps.Line), inner, filepath.Base(ps.Filename), ps.Line)
 }
 
 func (e *Engine) uncaught(st *State, full string) {
